@@ -389,3 +389,46 @@ def task_composition():
     obs.append({'name': 'C01/lemma/cover-goal-is-not-trivial', 'status': 'proved' if s2.check() == z3.sat else 'refuted', 'detail': 'the goal is refutable without the stage contracts',
                 'model': {}, 'time_s': 0, 'backend': 'z3', 'path': None, 'kind': 'cover', 'goal': None})
     return result(obs, [source.describe(PM + ':minify')], ASSUMPTIONS + ['adequacy axiom (trusted): %s -- %s' % a for a in ADEQUACY])
+
+
+def task_defaults():
+    """The default value of every switch of minify() is the documented one (C01 quantifies over "the defaults", C05 says docstrings/asserts/debug
+    only on request).  Read from the real signature and from docs/source/transforms/*.rst on every run; remove_annotations defaults to the
+    options object whose own defaults are documented on its page (variables, arguments and returns: yes; class attributes: no)."""
+    import ast as pyast
+    from spec import cli_docs
+    fi, node = source.find_def(PM + ':minify')
+    args = node.args
+    names = [a.arg for a in args.args]
+    defs = dict(zip(names[len(names) - len(args.defaults):], args.defaults))
+    documented = cli_docs.defaults_from_docs(source.REPO)
+    obs = []
+    for opt, want in sorted(documented.items()):
+        d = defs.get(opt)
+        ok = isinstance(d, pyast.Constant) and d.value is want
+        obs.append({'name': 'C05/minify/default-of-%s-is-the-documented-one' % opt, 'status': 'proved' if ok else 'refuted',
+                    'detail': 'documented: %s by default; signature default: %s' % ('enabled' if want else 'disabled', pyast.unparse(d) if d is not None else 'missing'),
+                    'model': {opt: (pyast.unparse(d) if d is not None else None)}, 'time_s': 0, 'backend': 'eval', 'path': None, 'kind': 'post', 'goal': None})
+    # rename_globals: "disabled by default" is spread over a line break in its page; stated in the README/usage as off
+    d = defs.get('rename_globals')
+    obs.append({'name': 'C05/minify/default-of-rename_globals-is-off', 'status': 'proved' if isinstance(d, pyast.Constant) and d.value is False else 'refuted',
+                'detail': 'rename_globals changes the module interface (C04): never on unless requested', 'model': {}, 'time_s': 0, 'backend': 'eval', 'path': None,
+                'kind': 'post', 'goal': None})
+    # RemoveAnnotationsOptions defaults
+    fi2, init = source.find_def(PM + '.transforms.remove_annotations_options:RemoveAnnotationsOptions.__init__')
+    a2 = init.args
+    n2 = [a.arg for a in a2.args]
+    d2 = dict(zip(n2[len(n2) - len(a2.defaults):], a2.defaults))
+    want2 = {'remove_variable_annotations': True, 'remove_return_annotations': True, 'remove_argument_annotations': True, 'remove_class_attribute_annotations': False}
+    for opt, want in sorted(want2.items()):
+        d = d2.get(opt)
+        ok = isinstance(d, pyast.Constant) and d.value is want
+        obs.append({'name': 'C05/RemoveAnnotationsOptions/default-of-%s-is-the-documented-one' % opt, 'status': 'proved' if ok else 'refuted',
+                    'detail': 'documented: "By default annotations are removed from variables, function arguments and function return, but not from class attributes"',
+                    'model': {}, 'time_s': 0, 'backend': 'eval', 'path': None, 'kind': 'post', 'goal': None})
+    d = defs.get('remove_annotations')
+    ok = isinstance(d, pyast.Call) and isinstance(d.func, pyast.Name) and d.func.id == 'RemoveAnnotationsOptions' and not d.args and not d.keywords
+    obs.append({'name': 'C05/minify/default-of-remove_annotations-is-the-default-options-object', 'status': 'proved' if ok else 'refuted',
+                'detail': pyast.unparse(d) if d is not None else 'missing', 'model': {}, 'time_s': 0, 'backend': 'eval', 'path': None, 'kind': 'post', 'goal': None})
+    return result(obs, [source.describe(PM + ':minify'), source.describe(PM + '.transforms.remove_annotations_options:RemoveAnnotationsOptions.__init__')],
+                  ['documentation pages docs/source/transforms/*.rst are the reference for defaults'], notes=['documented defaults: %r' % (documented,)])
